@@ -22,14 +22,18 @@ register(Contract(
 ))
 
 # value-table maintenance of branching synthetic blocks (C06, C14, C02)
+NT, OT = 'new_branch_value_table', 'self.branch_value_table'
+FOLLOW = ('(%s[{k}] == %s[{k}]) if %s[{k}] in jump_targets else (%s[{k}] in jump_targets and %s[{k}] not in self._jump_targets)'
+          % (NT, OT, OT, NT, NT))
 register(Contract(
     qual=BB + ':SyntheticBranch.replace_jump_targets',
     params={'self': 'block', 'jump_targets': 'tuple[name]'}, returns='block', pure=True,
-    locals={'new_branch_value_table': 'dict[int,name]'},
+    locals={'new_branch_value_table': 'dict[int,name]', 'diff': 'set[name]'},
     requires={
         'is-branch': 'isinstance(self, SyntheticBranch)',
-        # what the callers establish: the targets are renamed position-wise (any number of them)
-        'same-len': 'len(jump_targets) == len(self._jump_targets)',
+        # what the callers establish: targets renamed position-wise (any number of them), or several
+        # targets merged into one new successor (insert_block with more than one target in S)
+        'shape': 'retarget_shape(self._jump_targets, jump_targets)',
         'distinct-old': 'distinct(self._jump_targets)',
         'table': 'table_ok(self)',
     },
@@ -55,6 +59,30 @@ register(Contract(
                         ' or (k2 in _dk and self.branch_value_table[k2] == self._jump_targets[_i]))',
             'vals': 'all(all(implies(self.branch_value_table[k2] == self._jump_targets[m], new_branch_value_table[k2] == jump_targets[m])'
                     ' for m in range(_i + 1)) for k2 in new_branch_value_table)',
+        }),
+        # ---- the merging path (lengths differ)
+        'for target in self._jump_targets': LoopSpec(index='_m', inv={
+            'keys-in': 'all(k in self.branch_value_table for k in new_branch_value_table)',
+            'keys-from': 'all(any(self.branch_value_table[k] == self._jump_targets[m] for m in range(_m)) for k in new_branch_value_table)',
+            'keys-all': 'all(k in new_branch_value_table for k in self.branch_value_table'
+                        ' if any(self.branch_value_table[k] == self._jump_targets[m] for m in range(_m)))',
+            'vals': 'all(%s for k in new_branch_value_table)' % FOLLOW.format(k='k'),
+        }),
+        'for k, v in old_branch_value_table.items()#1': LoopSpec(done='_dk', inv={
+            'keys-in': 'all(k2 in self.branch_value_table for k2 in new_branch_value_table)',
+            'keys-from': 'all(any(self.branch_value_table[k2] == self._jump_targets[m] for m in range(_m + 1)) for k2 in new_branch_value_table)',
+            'keys-all': 'all(k2 in new_branch_value_table for k2 in self.branch_value_table'
+                        ' if any(self.branch_value_table[k2] == self._jump_targets[m] for m in range(_m))'
+                        ' or (k2 in _dk and self.branch_value_table[k2] == self._jump_targets[_m]))',
+            'vals': 'all(%s for k2 in new_branch_value_table)' % FOLLOW.format(k='k2'),
+        }),
+        'for k, v in old_branch_value_table.items()#2': LoopSpec(done='_dk', inv={
+            'keys-in': 'all(k2 in self.branch_value_table for k2 in new_branch_value_table)',
+            'keys-from': 'all(any(self.branch_value_table[k2] == self._jump_targets[m] for m in range(_m + 1)) for k2 in new_branch_value_table)',
+            'keys-all': 'all(k2 in new_branch_value_table for k2 in self.branch_value_table'
+                        ' if any(self.branch_value_table[k2] == self._jump_targets[m] for m in range(_m))'
+                        ' or (k2 in _dk and self.branch_value_table[k2] == self._jump_targets[_m]))',
+            'vals': 'all(%s for k2 in new_branch_value_table)' % FOLLOW.format(k='k2'),
         }),
     },
     properties=['C02', 'C06', 'C14'], gen='branch_replace',
@@ -82,10 +110,9 @@ def insert_block_clauses(btype):
         'preds-distinct': 'distinct(predecessors)',
         'targets-distinct': 'all(distinct(self.graph[p]._jump_targets) for p in predecessors)',
         'new-unused': 'all(new_name not in self.graph[p]._jump_targets for p in predecessors)',
-        # a branching synthetic predecessor keeps one table entry per successor, so it can have
-        # targets renamed but never removed or appended (class invariant of SyntheticBranch, C06)
-        'branch-preds': 'all(len(successors) > 0 and at_most_one_in(self.graph[p]._jump_targets, successors)'
-                        ' and table_ok(self.graph[p])'
+        # a branching synthetic predecessor keeps a table entry per successor: it can have targets renamed or
+        # merged into the new block, but nothing can be appended to it (class invariant of SyntheticBranch, C06)
+        'branch-preds': 'all(len(successors) > 0 and table_ok(self.graph[p])'
                         ' for p in predecessors if isinstance(self.graph[p], SyntheticBranch))',
     }
     ensures = {
@@ -103,6 +130,8 @@ def per_pred_clauses():
     return {
         'plain': 'ib_plain(%s, %s)' % (OB, NB),
         'branch': 'ib_branch(%s, %s)' % (OB, NB),
+        'branch-renamed': 'ib_branch_renamed(%s, %s)' % (OB, NB),
+        'branch-table': 'ib_branch_table(%s, %s)' % (OB, NB),
         'distinct': 'distinct(%s._jump_targets)' % NB,
         'sub': 'implies(len(successors) > 0, rr_sub%s)' % RR_ARGS,
         'kept': 'implies(len(successors) > 0, rr_kept%s)' % RR_ARGS,
@@ -129,16 +158,19 @@ def insert_block_loops():
         'distinct': 'distinct(jt)',
     }
     return {
-        'for name in predecessors': LoopSpec(inv=outer),
+        'for name in predecessors': LoopSpec(inv=outer, frame=['untouched']),
         'for s in successors': LoopSpec(index='_j', inv=inner),
     }
 
 
-CORE = ['dom', 'new-block', 'untouched', 'keys', 'block', 'distinct', 'pred-distinct']
+# proof hints: for the outer inductive step of clause pred-X keep, among the labelled hypotheses (invariant
+# clauses and cut facts), only X's own cut fact and invariant clause plus the structural ones
+CORE = ['block', 'nb-name', 'keys', 'dom']
 IB_HINTS = {}
-for _c in ('plain', 'branch', 'distinct', 'sub', 'kept', 'new', 'order', 'pos', 'append'):
-    IB_HINTS['pred-' + _c] = CORE + [_c, 'pred-' + _c]
-    IB_HINTS[_c] = CORE + [_c, 'sub', 'new'] + (['kept'] if _c in ('order', 'pos') else [])
+for _c, _cuts in (('plain', []), ('branch', ['nb-branch']), ('branch-renamed', ['nb-renamed']), ('branch-table', ['nb-table']),
+                  ('distinct', ['distinct']), ('sub', ['sub']), ('kept', ['kept']), ('new', ['new']), ('order', ['order']),
+                  ('pos', ['pos']), ('append', ['append'])):
+    IB_HINTS['pred-' + _c] = CORE + _cuts + ['pred-' + _c]
 
 
 def insert_block_cuts():
@@ -152,6 +184,11 @@ def insert_block_cuts():
         'pos': 'implies(len(successors) > 0, rr_pos%s)' % a,
         'distinct': 'distinct(jt)',
         'append': 'implies(len(successors) == 0, appended(old.self.graph[name]._jump_targets, jt, new_name))',
+    }, 'self.add_block(new_block)#1': {
+        'nb-name': 'new_block.name == name',
+        'nb-branch': 'ib_branch(old.self.graph[name], new_block)',
+        'nb-renamed': 'ib_branch_renamed(old.self.graph[name], new_block)',
+        'nb-table': 'ib_branch_table(old.self.graph[name], new_block)',
     }}
 
 
@@ -161,7 +198,7 @@ register(Contract(
     qual=SC + ':SCFG.insert_block', params=dict(IB_PARAMS, block_type='cls'), modifies=['self.graph'],
     locals={'jt': 'list[name]'},
     requires=_req, ensures=_ens, loops=insert_block_loops(), cuts=insert_block_cuts(),
-    # hints=IB_HINTS,  (not needed since named sets/dicts made the VCs stable)
+    hints=IB_HINTS,
     # R3 (DESIGN 1): a predecessor with a declared back edge loses that arc; proved on the complement
     known={'R3': 'any(len(self.graph[p].backedges) != 0 for p in predecessors)'},
     properties=['C14', 'C05', 'C04'], gen='insert',
